@@ -66,7 +66,11 @@ func (c01) Gen(seed uint64, run int, tier string) *Plan {
 	for i := 0; i < n; i++ {
 		k := r.Intn(hKinds)
 		a := Action{Kind: "req", A: k, B: r.Intn(3), C: r.Intn(1 << 16), D: r.Intn(1 << 30), L: []int{r.Intn(2)}}
-		if p.Knobs["pivot"] == 1 && r.Intn(12) == 0 {
+		if p.Knobs["pivot"] == 1 && r.Intn(30) == 0 {
+			// the pivot child loses its link, fetches its own (display) queue over HTTP directly, and
+			// is linked again
+			a.Kind = "childpoll"
+		} else if p.Knobs["pivot"] == 1 && r.Intn(12) == 0 {
 			// tasks are waiting for the agents at the far end of the pivot chain when the root checks in
 			a.Kind = "deeptask"
 		} else if len(cfg.External) > 0 && r.Intn(14) == 0 {
@@ -224,6 +228,10 @@ func (c01) Exec(p *Plan, dir string) *Result {
 			st.stalledPeer(a)
 			continue
 		}
+		if a.Kind == "childpoll" {
+			st.childPoll(a)
+			continue
+		}
 		if a.Kind == "opfault" {
 			if len(w.Operators) > 1 {
 				c := w.Operators[1].WS.C
@@ -302,6 +310,61 @@ func (st *c01State) deepTask(a Action) {
 	if s := c.Rec.Status(); s != 200 {
 		res.Violate("C01", "reply", fmt.Sprintf("chain-checkin-status-%d", s), fmt.Sprintf("the check-in of %s with tasks queued for its pivot chain was answered with status %d", root.NameID(), s), w.Sim)
 	}
+}
+
+// childPoll: tasks are queued for the pivot child; its parent reports that the pipe is gone; the
+// child (which knows its own key) asks an HTTP listener for its jobs directly; the parent reports
+// the child connected again. Every one of these requests is answered, nothing stays locked.
+func (st *c01State) childPoll(a Action) {
+	w, res := st.w, st.res
+	ch := st.child
+	if ch == nil {
+		return
+	}
+	root := w.Demons[0]
+	for k := 0; k <= a.C%3; k++ {
+		st.taskN++
+		st.wit.Task(ch.NameID(), fmt.Sprintf("%08x", 0x01300000+st.taskN), world.CmdSleep, "sleep", map[string]any{"Arguments": "4;1"})
+	}
+	w.Sim.Settle()
+	probs := len(w.Sim.Problems)
+	do := func(what string, body []byte) bool {
+		c := w.Send(world.AgentReq{Port: root.Port, URI: root.URI, Body: body})
+		reason := w.Sim.Settle()
+		res.Probe("requests")
+		if len(w.Sim.Problems) > probs {
+			return false
+		}
+		if reason == simrt.Budget || !c.Done {
+			res.Violate("C01", "does-not-terminate", "child-poll:"+what, fmt.Sprintf("%s never completed (blocked on %q)", what, c.Task.BlockOn), w.Sim)
+			return false
+		}
+		return true
+	}
+	var db world.PB
+	db.Int32(world.PivotSMBDisconnect).Int32(1).Int32(ch.ID)
+	if !do("the parent's report that the child's pipe is gone", root.Frame([]world.Pkg{{Cmd: world.CmdPivot, RID: 0, Body: db.B}})) {
+		return
+	}
+	for k := 0; k < 1+a.D%2; k++ {
+		if !do("the child's own job request over HTTP", ch.Frame(nil)) {
+			return
+		}
+	}
+	var cb world.PB
+	cb.Int32(world.PivotSMBConnect).Int32(1).Bytes(ch.InitPacket())
+	if !do("the parent's report that the child is connected again", root.Frame([]world.Pkg{{Cmd: world.CmdPivot, RID: 0, Body: cb.B}})) {
+		return
+	}
+	do("the parent's next check-in", root.Frame(nil))
+	// (hostile traffic may have moved the child below another agent: nobody keeps queued frames)
+	for _, d := range w.Demons[1:] {
+		if d.Parent == nil {
+			w.Checkin(d)
+		}
+	}
+	res.Probe("kind-child-polls-directly-while-unlinked")
+	res.FP("childpoll", a.C%3, a.D%2)
 }
 
 // stalledPeer: a peer announces a request body on the External-C2 endpoint and stops sending. Its
